@@ -8,8 +8,10 @@
    Modelled parameter kinds (the "fragment"): str / int / bool scalars without (de)serializer,
    [str] with list_serializer/list_deserializer, [str] with sp_sep_list_serializer/..deserializer;
    parameters outside the schema ("extras") and language-tagged keys.  Everything else (nested
-   Message objects, JSON-text kinds, bespoke deserializers, a "*" entry in c_param) evaluates to
-   Unmodelled.  No proofs in this file. *)
+   Message objects as parameter values, JSON-text kinds, bespoke deserializers, a "*" entry in c_param)
+   evaluates to Unmodelled.  Also here: the nested-message deserializer helper deserialize_from_one_of
+   (one_of: which wire format a nested value is read as) and the verify() of the two oauth2 classes that
+   unpack and merge a signed request object (jar_verify / par_verify).  No proofs in this file. *)
 From Coq Require Import String.
 From Verif Require Import Lib.Base Lib.PyStr Lib.Urlenc Lib.Utf8 Lib.Qs Lib.MsgSchema.
 Open Scope N_scope.
@@ -346,6 +348,36 @@ Definition from_urlencoded (c : mclass) (text : pystr) (m : msg) : res msg :=
   | _, _ => from_url_go c info m
   end.
 
+(* ================================ nested messages: deserialize_from_one_of ================================
+   idpyoidc.message.oidc.deserialize_from_one_of(val, msgtype, sformat) (and its twin in message.oauth2):
+   the helper behind address_deser, claims_deser, registration_request_deser and the identity-assurance
+   nested-message deserializers.  The value is read as each format of `one_of_order sformat` in turn; only a
+   FormatError moves on to the next format.  For dict / JSON the JSON reading comes FIRST: the JSON text of
+   a nested message is also accepted by the form parser as soon as it contains an "=".
+   The JSON text layer is trusted (json.loads (json.dumps d) = d): a dict value d stands for its JSON text,
+   and reading that text as JSON is from_dict d.  Reading a JSON text as a form, or a form text as JSON, is
+   outside the model. *)
+Inductive wire := WDict | WJson | WUrl.
+Definition one_of_order (f : wire) : list wire :=
+  match f with WDict | WJson => [WJson; WUrl] | WUrl => [WUrl; WJson] end.
+(* msgtype().deserialize(val, f) *)
+Definition deser_as (c : mclass) (f : wire) (v : pyval) : res msg :=
+  match f, v with
+  | WJson, VDict d => construct c d
+  | WUrl, VStr t => from_urlencoded c t (c_default c)
+  | _, _ => Unmodelled
+  end.
+Fixpoint try_formats (c : mclass) (fs : list wire) (v : pyval) : res msg :=
+  match fs with
+  | [] => Err EFormat
+  | f :: r => match deser_as c f v with
+              | Err e => if exc_eqb e EFormat then try_formats c r v else Err e
+              | x => x
+              end
+  end.
+Definition one_of (c : mclass) (sformat : wire) (v : pyval) : res msg :=
+  try_formats c (one_of_order sformat) v.
+
 (* ================================ oidc.AuthorizationRequest.verify ================================
    (no `request` / `id_token_hint`: those need the key jar and are exercised on the real code only)
    kwargs: only `nonce` matters for the rules below. *)
@@ -402,6 +434,37 @@ Definition authz_verify (c : mclass) (nonce_kw : option pystr) (m : msg) : res m
   if has_key (PS "request") m1 || has_key (PS "id_token_hint") m1 || has_key (PS "request_uri") m1 then Unmodelled else
   _ <- authz_rules nonce_kw m1 ;;
   Ok m1.
+
+(* ================================ verify() of the classes that unpack a request object ================================
+   oauth2.JWTSecuredAuthorizationRequest.verify (RFC 9101; strict merge, `request` or `request_uri` needed)
+   and oauth2.PushedAuthorizationRequest.verify (lax merge).  The signature check of the request object is
+   symbolic: `payload` = Some p when the object's signature verified and p is its content, None otherwise
+   (the exceptions of cryptojwt are outside the model).  `roc` is the class the object is read as
+   (oauth2.AuthorizationRequest).  Order of the code: unpack, merge, store the verified object under the
+   marker key, and LAST the generic check - on the message as it stands after the merge. *)
+Definition EMissingAttribute : exc := Refused 15.   (* MissingAttribute *)
+Definition keep_keys (ro m : msg) : msg := List.filter (fun kv => has_key (fst kv) ro) m.
+(* Message.update(other message): self._dict[key] = val for every item *)
+Definition msg_update (ro m : msg) : msg := fold_left (fun acc kv => aset (fst kv) (snd kv) acc) ro m.
+(* AuthorizationRequest.merge(request_object, "strict" | "lax") after the old marker has been deleted *)
+Definition request_merge (strict : bool) (ro m : msg) : msg :=
+  let m0 := adel verified_request m in
+  msg_update ro (if strict then keep_keys ro m0 else m0).
+Definition unpack_request (strict : bool) (c roc : mclass) (payload : option msg) (m : msg) : res msg :=
+  match payload with
+  | None => Unmodelled
+  | Some p =>
+      ro <- construct roc p ;;
+      let m1 := aset verified_request (VObj ro) (request_merge strict ro m) in
+      _ <- generic_verify c m1 ;; Ok m1
+  end.
+Definition jar_verify (c roc : mclass) (payload : option msg) (m : msg) : res msg :=
+  if has_key (PS "request") m then unpack_request true c roc payload m
+  else if has_key (PS "request_uri") m then _ <- generic_verify c m ;; Ok m
+  else Err EMissingAttribute.
+Definition par_verify (c roc : mclass) (payload : option msg) (m : msg) : res msg :=
+  if has_key (PS "request") m then unpack_request false c roc payload m
+  else _ <- generic_verify c m ;; Ok m.
 
 (* ================================ comparison helpers ================================ *)
 Definition entry_eqb (a b : pystr * pyval) : bool := str_eqb (fst a) (fst b) && pyval_eqb (snd a) (snd b).
